@@ -853,7 +853,15 @@ fn main() {
 
     let per_site = args.get_u64("per-site", args.n(1_500, 30_000));
     let n = per_site * SITES.len() as u64;
-    par_cases(&mut r, &args, n, |i, r| run_case(r, seed, i, threads));
-    selfcheck(&mut r, seed, if cfg!(miri) { 20 } else { args.n(5_000, 100_000) });
+    if let Some(cases) = args.get("cases").and_then(|c| c.parse::<u64>().ok()) {
+        // tiny lanes (Miri): `cases` cases whose sites rotate with the seed so a seed sweep covers them all
+        for k in 0..cases {
+            let i = (seed % 1000) * cases + k;
+            run_case(&mut r, seed, i, threads);
+        }
+    } else {
+        par_cases(&mut r, &args, n, |i, r| run_case(r, seed, i, threads));
+    }
+    selfcheck(&mut r, seed, if cfg!(miri) { 4 } else { args.n(5_000, 100_000) });
     std::process::exit(r.finish());
 }
